@@ -122,7 +122,7 @@ fn aligned_plaintext(rng: &mut Rng, residue: usize, nblocks: usize) -> Option<Ve
         if s0 % c == residue % c { return Some(p); }
         // one zero more = one stored byte less
         let d = (s0 + c - residue % c) % c;
-        z = if z + d < b { z + d } else if z >= c - d { z - (c - d) } else { return None };
+        z = if z + d < b { z + d } else if z + d >= c && z + d - c < b { z + d - c } else { return None };
     }
     None
 }
